@@ -288,6 +288,19 @@ pub(crate) fn media_response(p: &MediaPlaylist<'_>, roundtrip: bool) -> String {
     out
 }
 
+/// `S:[audio_streams]/[video_streams]/[unassociated_streams]` as positions in `variant_streams`
+fn push_s(o: &mut String, p: &MasterPlaylist<'_>) {
+    o.push_str(" S:");
+    let a: Vec<_> = p.audio_streams().collect();
+    push_positions(o, &a, &p.variant_streams, |v| Some(v));
+    o.push('/');
+    let v: Vec<_> = p.video_streams().collect();
+    push_positions(o, &v, &p.variant_streams, |v| Some(v));
+    o.push('/');
+    let u: Vec<_> = p.unassociated_streams().collect();
+    push_positions(o, &u, &p.variant_streams, |v| Some(v));
+}
+
 pub(crate) fn master_response(p: &MasterPlaylist<'_>, roundtrip: bool) -> String {
     let o1 = obs::to_s(|o| obs::master(o, p));
     let t1 = p.to_string();
@@ -297,6 +310,7 @@ pub(crate) fn master_response(p: &MasterPlaylist<'_>, roundtrip: bool) -> String
     push_t(&mut out, &t1);
     out.push_str(&format!(" V:{}", v));
     push_a(&mut out, p);
+    push_s(&mut out, p);
     if roundtrip {
         let (r, f) = reparse::<crate::kinds::PMaster>(&t1, &o1);
         out.push(' ');
